@@ -54,3 +54,17 @@ Definition run_dmx (flags : N) (t : script_table) (bufs : list (list N)) : optio
   | Ok (_, _, evs) => Some (concat (map enc_event evs))
   | Panic _ => None
   end.
+
+(* a PES packet filter driven directly with a sequence of 188-byte packets (C08 / C09 suites) *)
+Fixpoint run_pesf_loop (deep : bool) (f : pes_filter) (idx : N) (pkts : list (list N)) : res (list N) :=
+  match pkts with
+  | [] => Ok []
+  | p :: rest =>
+      do pk <- pkt_new p;
+      do r <- handler_consume (std_policy []) (scripts_of []) false deep (HPes 0 f) {| cx_changes := []; cx_serial := 1 |} idx pk;
+      let '(h, _, evs) := r in
+      do more <- run_pesf_loop deep (match h with HPes _ f' => f' | _ => f end) (idx + 188) rest;
+      Ok (concat (map enc_event evs) ++ more)
+  end.
+Definition run_pesf (flags : N) (pkts : list (list N)) : option (list N) :=
+  opt_of_res (run_pesf_loop (N.testbit flags 0) pes_filter_new 0 pkts).
